@@ -300,7 +300,7 @@ PROPS = {
                 "missing or duplicate parts; aws-chunked incl. truncated with hostile decoded lengths) x hostile headers (Range, "
                 "Content-MD5, X-Amz-Copy-Source, Content-Length, conditionals, force-delete, oversized metadata). Every request runs "
                 "under recover() and a 5 s deadline; every 25 requests a canary sequence on a fresh bucket and on the fuzzed bucket is "
-                "compared with the model. distinct_nontrivial = distinct (backend, config, status, code, method, header count). The corpus and the fuzz pool hold keys of 200-210 bytes in 2-, 3- and 4-byte characters (written, read, listed, deleted). The versioned store holds delete markers between live keys of a group, last in a group and as a group of their own; the corpus pages object listings over them (max-keys 1..6 x 11 prefix / delimiter / marker combinations). Signed, huge, non-hexadecimal and empty aws-chunked chunk-size fields, as an object and as a part. Completes naming every part number 0..6, 10000, 10001, alone and after a valid first entry. A sixth configuration: a server with host-bucket bases addressed path-style; the canary on a fresh bucket carries a multipart upload from initiate to complete. On servers without a versioned backend the corpus sends versioning documents without a Status element. Every run ends with Minio's force-delete of buckets that hold objects followed by requests that must still be answered.",
+                "compared with the model. distinct_nontrivial = distinct (backend, config, status, code, method, header count). The corpus and the fuzz pool hold keys of 200-210 bytes in 2-, 3- and 4-byte characters (written, read, listed, deleted). The versioned store holds delete markers between live keys of a group, last in a group and as a group of their own; the corpus pages object listings over them (max-keys 1..6 x 11 prefix / delimiter / marker combinations). Signed, huge, non-hexadecimal and empty aws-chunked chunk-size fields, as an object and as a part. Completes naming every part number 0..6, 10000, 10001, alone and after a valid first entry. A sixth configuration: a server with host-bucket bases addressed path-style; the canary on a fresh bucket carries a multipart upload from initiate to complete. On servers without a versioned backend the corpus sends versioning documents without a Status element. Every run ends with Minio's force-delete of buckets that hold objects followed by requests that must still be answered. Two more configurations: the request-time check switched on (default limit; undated requests are stamped with the server's own time, the grammar sends dates at, around and far beyond the limit, malformed ones too) on mem and bolt, and the CORS wrapper (WithInsecureCORS; every request names an Origin) on mem and the single-bucket fs backend.",
         "explanation": "Theorems: no reachable state makes a modelled handler panic (object API, range, uploader complete/list with any "
                        "part number or marker, version listing), an error leaves the state unchanged, and the status of an error equals "
                        "the table entry of its code. Tie: model-free response oracle (extracted from Coq) on every response of the Go "
